@@ -21,4 +21,13 @@ BasesValid == {Tr(<<0, 1, 1>>, <<"g", "on", "def">>), Tr(<<0, 1, 1, 1, 4>>, <<"g
                Tr(<<0, 1, 1, 1, 4>>, <<"g", "del", "dur", "g", "p2">>), Tr(<<0, 1, 1, 1>>, <<"g", "del", "on", "def">>),
                Tr(<<0, 1, 1>>, <<"g", "uq", "p1">>), Tr(<<0, 0, 2, 2, 4>>, <<"p1", "g", "p2", "g", "def">>)}
 EmitNear == (steps >= 1) => Emit
+\* sibling groups that hold the same tags in different nesting ("confusable" siblings): a copy of any member must be
+\* found although a different group with the same flattened content sits beside it
+BasesConfusable == {Tr(<<0, 1, 1, 3, 0, 5, 6, 6, 8>>, <<"g", "p1", "g", "p2", "g", "g", "p1", "g", "p2">>),
+                    Tr(<<0, 1, 1, 0, 4, 4, 6>>, <<"g", "p1", "p2", "g", "p1", "g", "p2">>),
+                    Tr(<<0, 1, 1, 3, 0, 5, 6, 5>>, <<"g", "p1", "g", "p2", "g", "g", "p1", "p2">>),
+                    Tr(<<0, 1, 2, 1, 4, 0, 6, 7, 7>>, <<"g", "g", "p1", "g", "p2", "g", "g", "p1", "p2">>),
+                    Tr(<<0, 1, 2, 2, 4, 1, 6, 7, 7, 9>>, <<"g", "g", "p1", "g", "p2", "g", "g", "p1", "g", "p2">>),
+                    Tr(<<0, 1, 1, 3, 0, 5, 5, 7, 8>>, <<"g", "p1", "g", "v", "g", "p1", "g", "g", "v">>)}
+KindsPlain == {"p1", "p2"}
 ====
